@@ -554,3 +554,59 @@ pub fn c12_search(seed: u64, n: u64) -> i32 {
     println!("SEARCH tried={} found=0", n);
     0
 }
+
+// ---------------------------------------------------------------------------------------------
+// C11 oracle: tallies are invariant under suit relabelling and follow player reordering
+fn tallies(flop: &[Card; 3], ranges: &Vec<HandRange>) -> Result<Vec<Vec<u64>>, String> {
+    // per player: [outright wins, 2-way ties, 3-way ties, ...], plus total showdowns in slot 0 of an extra row
+    let n = ranges.len();
+    let board = [Some(flop[0]), Some(flop[1]), Some(flop[2]), None, None];
+    let mut t = vec![vec![0u64; n + 1]; n + 1];
+    for sd in FlopExhaustiveEvaluator::new(&board, ranges) {
+        let flagged = sd.players().iter().filter(|p| p.is_winner()).count();
+        if flagged == 0 || flagged != sd.winner_len() as usize { return Err(format!("showdown with {} flagged winners and winner_len {}", flagged, sd.winner_len())); }
+        for (i, p) in sd.players().iter().enumerate() { if p.is_winner() { t[i][flagged] += 1; } }
+        t[n][0] += 1;
+    }
+    Ok(t)
+}
+
+fn relabel_card(c: Card, perm: &[usize; 4]) -> Card {
+    Card::new(*c.rank(), SUITS[perm[u8::from(c.suit()) as usize]])
+}
+
+pub fn check_c11(flop: [Card; 3], entries: &Vec<Vec<(CardPair, f32)>>, perm: [usize; 4], rot: usize) -> Result<String, String> {
+    let ranges: Vec<HandRange> = entries.iter().map(|r| r.iter().cloned().collect()).collect();
+    let base = tallies(&flop, &ranges)?;
+    let flop2 = [relabel_card(flop[0], &perm), relabel_card(flop[1], &perm), relabel_card(flop[2], &perm)];
+    let ranges2: Vec<HandRange> = entries.iter().map(|r| r.iter().map(|(p, w)| (CardPair::new(relabel_card(p[0], &perm), relabel_card(p[1], &perm)), *w)).collect()).collect();
+    let rel = tallies(&flop2, &ranges2)?;
+    if rel != base { return Err(format!("suit relabelling {:?} changes the tallies: {:?} vs {:?}", perm, base, rel)); }
+    let n = ranges.len();
+    let ranges3: Vec<HandRange> = (0..n).map(|i| ranges[(i + rot) % n].clone()).collect();
+    let per = tallies(&flop, &ranges3)?;
+    for i in 0..n { if per[i] != base[(i + rot) % n] { return Err(format!("rotating the players by {} does not rotate the tallies: {:?} vs {:?}", rot, base, per)); } }
+    if per[n] != base[n] { return Err("player order changes the number of showdowns".to_string()); }
+    Ok(format!("{} showdowns", base[n][0]))
+}
+
+pub fn c11_search(seed: u64, n: u64) -> i32 {
+    std::panic::set_hook(Box::new(|_| {}));
+    let mut rng = Rng(seed ^ 0xC11);
+    let perms: Vec<[usize; 4]> = { let mut v = vec![]; for a in 0..4 { for b in 0..4 { for c in 0..4 { for d in 0..4 { let p = [a, b, c, d]; let mut s = p.to_vec(); s.sort(); if s == vec![0, 1, 2, 3] { v.push(p); } } } } } v };
+    for it in 0..n {
+        let mut case = gen_iter_case(&mut rng, 6 + (it % 2) * 0 + 1); // small ranges (mode 7 / 1)
+        case.scopes.clear();
+        if case.ranges.iter().any(|r| r.len() > 8) { continue; }
+        let perm = perms[rng.below(24) as usize];
+        let rot = 1 + rng.below(case.ranges.len().max(1) as u64) as usize;
+        if let Err(e) = check_c11(case.flop, &case.ranges, perm, rot) {
+            let d = case.describe();
+            println!("WITNESS c11 {}{}{}{} {} {} :: {}", perm[0], perm[1], perm[2], perm[3], rot, d.trim_start_matches("iter "), e);
+            println!("SEARCH tried={} found=1", it + 1);
+            return 1;
+        }
+    }
+    println!("SEARCH tried={} found=0", n);
+    0
+}
